@@ -7,7 +7,7 @@ from ..core import Anchor
 PID = "C10"
 LEVEL = "other"
 CRATES = ["rlib_geometry"]
-RELEASE = False
+RELEASE = True
 ARMED = True
 ENGINES = ["E6", "E3"]
 TECHNIQUE = "backward data-dependence of every returned point (term slices down to the fields of the inputs) against the inputs geometry requires; linear-form classification of the floating-point comparisons of each path into threshold ladders; term shape of line normalisation"
@@ -20,7 +20,7 @@ LEVEL_TEXT = (
     "ordering the radii, the circle-line one with r+eps, r-eps, position with -eps/+eps, all with the crate constant EPS. Numerical "
     "accuracy (1e-7) and agreement of the reported kind with exact geometry are runtime quantities: NOT decided."
 )
-LEVEL_NOTE = "trusted: rustc MIR, exporter; Point operator impls are the coordinate-wise operations (treated as opaque pure functions of their operands)"
+LEVEL_NOTE = "trusted: rustc MIR, exporter; G1 follows values through the crate's non-public helpers, Point's inherent methods and operator impls (inlined); a product with a constant-zero factor depends on nothing"
 EXPLANATION = (
     "G1 dependence: for each Point in a returned variant of intersect_ll/intersect_cl/intersect_cc the set of input fields its term "
     "mentions (loads and by-reference arguments, through all intermediate calls) must contain the required ones. G2 normalisation: "
@@ -37,6 +37,7 @@ FIXTURES = [
     ("c10_bad_cc_swapped_touch", "bad", ["G3"]),
     ("c10_bad_cc_no_order", "bad", ["G3"]),
     ("c10_bad_cl_eps", "bad", ["G3"]),
+    ("c10_bad_cl_zero_normal", "bad", ["G1"]),
 ]
 
 EPSV = 1e-9
@@ -88,11 +89,45 @@ def deps(t):
         if h == "proj" and s[2][0] == "param":
             out.add((s[2][1], (s[1],)))
             return
+        if h == "fbin" and s[1] == "Mul" and (_is_zero(s[2]) or _is_zero(s[3])):
+            # a product with the constant zero carries nothing of its other factor
+            return
         for x in s[1:]:
             walk(x)
 
     walk(t)
     return out
+
+
+def _is_zero(t):
+    """the float term is the constant zero on this path (a product is zero once one factor is)"""
+    if not isinstance(t, tuple) or not t:
+        return False
+    if t[0] == "fconst":
+        return t[1] == 0
+    if t[0] == "un" and t[1] == "Neg":
+        return _is_zero(t[2])
+    if t[0] == "fbin" and t[1] == "Mul":
+        return _is_zero(t[2]) or _is_zero(t[3])
+    if t[0] == "fbin" and t[1] in ("Add", "Sub"):
+        return _is_zero(t[2]) and _is_zero(t[3])
+    return False
+
+
+def _g1_analyser(crate):
+    """G1 is judged with the crate's non-public helper functions and Point's operator impls inlined: a
+    normal computed in a helper, or scaled by a helper's constant result, is followed to the inputs"""
+    inl = []
+    for m in crate.bodies:
+        if m.is_closure or m.kind not in ("Fn", "AssocFn") or util.self_recursive(m):
+            continue
+        imp = crate.impl_of(m) or {}
+        if imp.get("derived"):
+            continue
+        point_method = not imp.get("of_trait") and m.container is not None and m.path.rsplit("::", 1)[0].endswith("Point")
+        if m.vis != "pub" or str(imp.get("trait") or "").startswith("std::ops::") or point_method:
+            inl.append(m)
+    return util.analyser(inl)
 
 
 def has(dset, p, path):
@@ -187,7 +222,7 @@ def check(col, prog, tier, profile, fixture=None):
 
     # ---------------- intersect_cl
     b = util.need_body(crate, "util::intersect_cl")
-    I = util.analyse(b)
+    I = _g1_analyser(crate)(b)
     variants = {}
     for n, st in enumerate(I.final_states):
         ret = util.ret_term(st)
@@ -234,7 +269,7 @@ def check(col, prog, tier, profile, fixture=None):
 
     # ---------------- intersect_cc
     b = util.need_body(crate, "util::intersect_cc")
-    I = util.analyse(b)
+    I = _g1_analyser(crate)(b)
     icl = util.need_body(crate, "util::intersect_cl")
     seen = {}
     for n, st in enumerate(I.final_states):
